@@ -57,3 +57,65 @@ package tlv
 //@   ensures result1 >= idx && result1 <= max(idx, len(s.records))
 //@   loop 0 invariant entry(idx) <= idx && idx <= max(entry(idx), len(s.records))
 //@   nopanic
+//@
+//@ func numLeadingZeroBytes16
+//@   props C10
+//@   ensures result == ite(v == 0, 2, ite(v < 256, 1, 0))
+//@
+//@ func numLeadingZeroBytes32
+//@   props C10
+//@   ensures result == ite(v == 0, 4, ite(v < 256, 3, ite(v < 65536, 2, ite(v < 16777216, 1, 0))))
+//@
+//@ func numLeadingZeroBytes64
+//@   props C10
+//@   ensures result == ite(v == 0, 8, ite(v < 256, 7, ite(v < 65536, 6, ite(v < 16777216, 5, ite(v < 4294967296, 4,
+//@           ite(v < 1099511627776, 3, ite(v < 281474976710656, 2, ite(v < 72057594037927936, 1, 0))))))))
+//@
+//@ func DTUint16
+//@   props C10
+//@   requires buf != nil && dyndata(val) != 0
+//@   ensures result == nil ==> l <= 2 && 2 - ret(numLeadingZeroBytes16) == l
+//@   site call ReadFull: assert l <= 2 && arg(0) == r && arg(1) == subslice(sliceof(*buf), 2 - l, 2)
+//@   site call numLeadingZeroBytes16: assert arg(0) == ret(Uint16) && retn(ReadFull, 1) == nil
+//@   site call Uint16: assert arg(1) == subslice(sliceof(*buf), 0, 2)
+//@   nopanic
+//@
+//@ func DTUint32
+//@   props C10
+//@   requires buf != nil && dyndata(val) != 0
+//@   ensures result == nil ==> l <= 4 && 4 - ret(numLeadingZeroBytes32) == l
+//@   site call ReadFull: assert l <= 4 && arg(0) == r && arg(1) == subslice(sliceof(*buf), 4 - l, 4)
+//@   site call numLeadingZeroBytes32: assert arg(0) == ret(Uint32) && retn(ReadFull, 1) == nil
+//@   site call Uint32: assert arg(1) == subslice(sliceof(*buf), 0, 4)
+//@   nopanic
+//@
+//@ func DTUint64
+//@   props C10
+//@   requires buf != nil && dyndata(val) != 0
+//@   ensures result == nil ==> l <= 8 && 8 - ret(numLeadingZeroBytes64) == l
+//@   site call ReadFull: assert l <= 8 && arg(0) == r && arg(1) == subslice(sliceof(*buf), 8 - l, 8)
+//@   site call numLeadingZeroBytes64: assert arg(0) == ret(Uint64) && retn(ReadFull, 1) == nil
+//@   site call Uint64: assert arg(1) == subslice(sliceof(*buf), 0, 8)
+//@   nopanic
+//@
+//@ func ETUint16T
+//@   props C10
+//@   requires buf != nil
+//@   site call Write: assert arg(1) == subslice(sliceof(*buf), ite(val == 0, 2, ite(val < 256, 1, 0)), 2)
+//@   site call PutUint16: assert arg(2) == val && arg(1) == subslice(sliceof(*buf), 0, 2)
+//@   nopanic
+//@
+//@ func ETUint32T
+//@   props C10
+//@   requires buf != nil
+//@   site call Write: assert arg(1) == subslice(sliceof(*buf), ite(val == 0, 4, ite(val < 256, 3, ite(val < 65536, 2, ite(val < 16777216, 1, 0)))), 4)
+//@   site call PutUint32: assert arg(2) == val && arg(1) == subslice(sliceof(*buf), 0, 4)
+//@   nopanic
+//@
+//@ func ETUint64T
+//@   props C10
+//@   requires buf != nil
+//@   site call Write: assert arg(1) == subslice(sliceof(*buf), ret(numLeadingZeroBytes64), 8) && 0 <= ret(numLeadingZeroBytes64) && ret(numLeadingZeroBytes64) <= 8
+//@   site call numLeadingZeroBytes64: assert arg(0) == val
+//@   site call PutUint64: assert arg(2) == val && arg(1) == subslice(sliceof(*buf), 0, 8)
+//@   nopanic
